@@ -68,7 +68,7 @@ def parseTy (j : Json) : Except String TyInfo := do
     | .error _ => pure .none
   pure { kind := parseKind (← getStr j "kind"), str := ← getStr j "str", qstr := ← getStr j "qstr", name := ← getStr j "name",
          pkgPath := ← getOptStr j "pkgPath", pkgName := ← getStr j "pkgName", elem := ← getNat j "elem",
-         isStruct := ← getBool j "isStruct", isInvalid := ← getBool j "isInvalid",
+         isStruct := ← getBool j "isStruct", isInvalid := ← getBool j "isInvalid", isSlice := ← getBool j "isSlice",
          underStr := ← getStr j "underStr", fields := fields, methods := methods, stringLookup := sl }
 
 def parseFuncLookup (j : Json) : Except String FuncLookup := do
@@ -168,6 +168,8 @@ def frontToJson (r : FrontResult) : Json :=
     ("blocks", Json.arr (r.blocks.map fun (n, fs) =>
       Json.mkObj [("intf", n), ("funcs", Json.arr (fs.map fun (fname, text) =>
         Json.mkObj [("name", fname), ("text", text)]).toArray)]).toArray),
+    ("metas", Json.arr (r.metas.map fun (n, a, rc, rv, e, sp) =>
+      Json.mkObj [("name", n), ("argStyle", a), ("receiver", rc), ("reverse", rv), ("retError", e), ("srcPtr", sp)]).toArray),
     ("groups", Json.arr (r.groups.map fun g => Json.arr (g.map fun c =>
       Json.mkObj [("pos", c.pos), ("text", c.text)]).toArray).toArray),
     ("planted", Json.arr (r.planted.map fun g => Json.mkObj [("pos", g.pos), ("end", g.endp), ("empty", g.empty),
